@@ -253,6 +253,23 @@ CHECKS = {
         'model assumptions listed in the evidence (delete_function clears '
         'exclusivity; merge semantics of del through a multi-context)',
         'DESIGN.md section 2, C17'),
+    'C04': (
+        'Hypothesis grammar-based program generation with static scope '
+        'tracking, differential against an independent (lazy-aware) '
+        'reference interpreter',
+        'Generated-input search over typed ASTs of depth <=5 (thorough <=6) '
+        'rendered to YAQL text and JSON-like documents: literals, variables, '
+        'list/map/index expressions, member access and projection, method '
+        'chains with one- and two-argument lambdas, lazily evaluated '
+        'zero-argument operands, let/with/unpack/def/->. The generator '
+        'tracks the static scope and produces shadowing, outer-frame reads, '
+        'unbound names, closures whose free variables are re-bound at the '
+        'call site, closures called with different arities and recursion '
+        'on purpose (feature rates are in the evidence). Oracle: '
+        'models/refinterp.py (frames, lexical closures, $ = $1, missing = '
+        'null, one-shot lazy sequences); error iff error.',
+        'exception classes are not compared; delegates mode not generated',
+        'DESIGN.md section 2, C04'),
     'C05': (
         'Hypothesis-generated overload families and calls (text and API '
         'paths) against an order-free reference implementation of the '
